@@ -612,7 +612,7 @@ func runC19(w *mc.Worker) {
 	navStage(fmt.Sprintf("navigation-v%d", weight), weight, []int{0, 3, 4}, "the one-line layout, the compact layout (no blank between two tokens that still lex as themselves: touching tokens) and a layout where every variable token ends its line")
 	// scoping: uses that must NOT resolve (a variable named in an origin before its declaration, or in
 	// its own origin), duplicates, a duplicate whose origin names the variable it repeats
-	w.Stage("navigation-scoping", "8 hand-built scripts about declaration order, self-reference and duplicates x 5 layouts x every position", func() {
+	w.Stage("navigation-scoping", "10 hand-built scripts about declaration order, self-reference, duplicates, unknown types and diagnostics over non-BMP text x 7 layouts x every position", func() {
 		mk := func(typ, name string, origin *gen.Call) *gen.VarDecl {
 			return &gen.VarDecl{Type: &gen.TypeName{Name: typ}, Name: gen.V(name), Origin: origin}
 		}
@@ -630,6 +630,12 @@ func runC19(w *mc.Worker) {
 			{Vars: []*gen.VarDecl{mk("account", "a", nil)}, Stmts: []gen.Stmt{send(gen.V("a"), gen.Mon("USD", "1")), send(gen.V("nope"), gen.Mon("USD", "1")), &gen.Call{Name: "set_tx_meta", Args: []gen.Expr{gen.Str("😀 𐐀"), gen.V("a")}}}},
 			{Vars: []*gen.VarDecl{mk("account", "ab", nil), mk("account", "a", nil)}, Stmts: []gen.Stmt{&gen.Send{Sent: &gen.SentLit{E: gen.Mon("USD", "1")}, Src: lst(&gen.SrcAccount{E: gen.V("a")}, &gen.SrcAccount{E: gen.V("ab")}), Dst: da("x")}}},
 		}
+		progs = append(progs,
+			// diagnostics whose own range holds characters outside the BMP (a bad arity over a whole call, a type mismatch on a string)
+			&gen.Program{Vars: []*gen.VarDecl{mk("account", "a", nil)}, Stmts: []gen.Stmt{&gen.Call{Name: "set_tx_meta", Args: []gen.Expr{gen.Str("😀 𐐀")}}, send(gen.V("a"), gen.Str("😀 x"))}},
+			// a declaration with a type that does not exist: its uses still are uses of that variable
+			&gen.Program{Vars: []*gen.VarDecl{mk("acount", "d", nil), mk("monetary", "m", nil)}, Stmts: []gen.Stmt{send(gen.V("d"), gen.V("m"))}},
+		)
 		for _, p := range progs {
 			p.HasVars = true
 		}
